@@ -45,7 +45,7 @@ Constructs == [i \in 1..Len(Functions) |-> FnC(Functions[i])] \o [i \in 1..Len(A
 
 \* every argument position of every function the planner builds on a code path of its own is a position
 Positions == <<"top", "fnarg", "aggop", "aggparam", "binl", "binr", "paren", "neg", "nested", "kparam", "clamparg", "subq", "pinned", "histo",
-               "histoq", "tsarg", "scalararg", "clamp3", "clampfirst", "clampmid">>
+               "histoq", "tsarg", "scalararg", "clamp3", "clampfirst", "clampmid", "kop", "quantop">>
 \* text of construct c in position p, "" if the position does not accept the construct's type
 InPos(c, p) ==
   CASE p = "top" -> c.text
@@ -69,6 +69,10 @@ InPos(c, p) ==
     \* the construct in an argument that is not the last one of a function with several arguments
     [] p = "clampfirst" -> IF c.type = "vector" THEN "clamp_min(" \o c.text \o ", 4)" ELSE ""
     [] p = "clampmid" -> IF c.type = "vector" THEN "clamp(m, scalar(" \o c.text \o "), 7)" ELSE IF c.type = "scalar" THEN "clamp(m, " \o c.text \o ", 7)" ELSE ""
+    \* the construct as the operand of an aggregation that takes a parameter
+    \* (k exceeds the number of series: which of several NaN members a smaller k keeps is a tie)
+    [] p = "kop" -> IF c.type = "vector" THEN "topk(9, " \o c.text \o ")" ELSE ""
+    [] p = "quantop" -> IF c.type = "vector" THEN "quantile by (a) (0.5, " \o c.text \o ")" ELSE ""
     [] p = "histo" -> IF c.type = "vector" THEN "histogram_quantile(0.5, " \o c.text \o ")" ELSE ""
 
 Data == << Series(<< <<"__name__","m">>, <<"a","x">>, <<"b","1">>, <<"le","1">> >>, [i \in 1..12 |-> Smp(i - 1, "f", i)]),
